@@ -27,7 +27,7 @@ RE_POINTS = {
 DOMAIN = {"recip": "nonzero", "inv": "nonzero", "sqrt": "pos", "cbrt": "nonzero", "ln": "pos", "log2": "pos", "log10": "pos", "log": "pos", "ln_1p": "gtm1",
           "asin": "unit", "acos": "unit", "atanh": "unit", "acosh": "gt1", "powf": "pos", "powd": "pos", "abs": "nonzero", "signum": "nonzero",
           "sph_j0": "sph", "sph_j1": "sph", "sph_j2": "sph", "exp_m1": "gtm1"}
-DER = [1.0, -2.0, 0.5, 3.0, -0.75, 2.0, -1.5, 0.25, 4.0]
+DER = [1.0, -2.0, 0.5, 3.0, -0.75, 2.0, -1.5, 0.25, 4.0, 0.0]  # a zero part now and then (fast paths keyed on a vanishing part)
 
 
 def build_binary(repo):
